@@ -35,8 +35,8 @@ RULE = ('case = (entry point, parameters, molecule in a concrete numbering/inser
 TRUSTED = ['hand transcription Model/Fingerprint.lean (validated by this correspondence)',
            'Py/Hash.lean model of CPython 3.12 int/tuple hash (validated on every hash compared)',
            'wire format harness/wire.py <-> Model/Graph.lean']
-ASSUMPTIONS = ['molecules satisfy the Graph invariant (symmetric adjacency dict over the atom keys); the driver refuses others '
-               'for the linear entry points',
+ASSUMPTIONS = ['the semantic theorems assume the Graph invariant Mol.WF (symmetric adjacency dict over the atom keys); on other '
+               'graphs the model raises KeyError like the code does (compared on a malformed-graph stream)',
                'length is an int; int(log2(length)) is exact for the lengths used (powers of two, and small non-powers)',
                'FingerprintsCGR._atom_identifiers (CGR containers) is outside the model',
                'linear_hash_smiles/linear_smiles_hash/morgan_hash_smiles/morgan_smiles_hash (SMILES rendering of fragments) '
@@ -191,7 +191,7 @@ def molecules(ctx):
     """(name, mol) stream: hand-made, corpus sample, test files, exhaustive small graphs decorated, ring assemblies."""
     rng = ctx.rng
     out = list(molgen.handmade())
-    out += molgen.corpus(rng, 120 if ctx.quick else 1200)
+    out += molgen.corpus(rng, 200 if ctx.quick else 800)
     tf = molgen.test_files()
     rng.shuffle(tf)
     out += tf[:20 if ctx.quick else 300]
@@ -395,7 +395,7 @@ def correspond(ctx):
         if resp is None:
             continue
         model = parse_model(op, resp[i])
-        if model[0] in ('not-wf', 'bad-request'):
+        if model[0] in ('bad-request',):
             ctx.broke('correspondence', 'wire', f'driver answered {model[0]} for {name}')
             continue
         if op in ('lfp', 'mfp') and real[0] == 'shape':
@@ -970,7 +970,7 @@ def run_history(inp):
 
 
 def history_stream(ctx):
-    cases = history_cases(ctx, 40 if ctx.quick else 400)
+    cases = history_cases(ctx, 80 if ctx.quick else 300)
     lines, meta = [], []
     for inp in cases:
         try:
@@ -1034,8 +1034,8 @@ def _dangling(ints, victim_index):
 
 
 def malformed_stream(ctx, mols):
-    """graphs that violate the Graph invariant (a neighbour dict names an atom that does not exist): the Morgan entry
-    points must raise KeyError exactly where the model does (subscript of a missing key), and not otherwise"""
+    """graphs that violate the Graph invariant (a neighbour dict names an atom that does not exist): every entry point
+    must raise KeyError exactly where the model does (subscript of a missing key), and not otherwise"""
     if not ctx.build_ok:
         return
     rng = ctx.rng
@@ -1047,7 +1047,8 @@ def malformed_stream(ctx, mols):
         bad_ints, bad = _dangling(ints, rng.choice(cand))
         line = ' '.join(map(str, bad_ints))
         for lo, hi in ((1, 1), (1, 2), (2, 3), (0, 2)):
-            for op, params in (('mdict', (lo, hi)), ('mhs', (lo, hi)), ('mbs', (lo, hi, 256, 2)), ('ident', ())):
+            for op, params in (('mdict', (lo, hi)), ('mhs', (lo, hi)), ('mbs', (lo, hi, 256, 2)), ('ident', ()),
+                               ('chains', (lo, hi)), ('frags', (lo, hi)), ('lhs', (lo, hi, 3)), ('lbs', (lo, hi, 256, 2, 3))):
                 lines.append(model_line(op, params, line))
                 meta.append((op, params, name, bad))
     resp = run_driver('C17', lines)
@@ -1153,7 +1154,7 @@ def cgr_checks(inp):
 
 
 def cgr_stream(ctx):
-    for inp in cgr_cases(ctx, 40 if ctx.quick else 500):
+    for inp in cgr_cases(ctx, 80 if ctx.quick else 400):
         ctx.count(('cgr', inp['smiles'], json.dumps(inp['edits']), tuple(inp['params'])), True)
         ctx.dist('relational:cgr')
         try:
